@@ -44,3 +44,27 @@ package config
 //@   props C01 C04 C08 C09 C13
 //@   modifies fresh
 //@   ensures result != nil && (result.tmpdir == "" || isauxdir(result.tmpdir))
+
+// C13, C14: the fetch filters are lfs.fetchinclude and lfs.fetchexclude, split
+// at commas; lastfi/lastfx remember what was handed out most recently.
+//@ func (*Configuration).FetchIncludePaths
+//@   props C13 C14
+//@   requires @inv c != nil && c.Git != nil
+//@   modifies fresh, ghost lastclean[0]
+//@   at call (config.Environment).Get:1 assert arg1__ == "lfs.fetchinclude"
+//@   at call tools.CleanPaths:1 assert arg0__ == patterns && arg1__ == ","
+//@   ensures result == lastclean(0)
+//@   monitor lastfi[0] := result
+//@ func (*Configuration).FetchExcludePaths
+//@   props C13 C14
+//@   requires @inv c != nil && c.Git != nil
+//@   modifies fresh, ghost lastclean[0]
+//@   at call (config.Environment).Get:1 assert arg1__ == "lfs.fetchexclude"
+//@   at call tools.CleanPaths:1 assert arg0__ == patterns && arg1__ == ","
+//@   ensures result == lastclean(0)
+//@   monitor lastfx[0] := result
+//@ func github.com/git-lfs/git-lfs/v3/tools.CleanPaths
+//@   assumed
+//@   props C13 C14
+//@   modifies fresh, ghost lastclean[0]
+//@   ensures result == cleanpaths(paths, delim) && lastclean(0) == result
